@@ -174,10 +174,21 @@ def audit(modules):
 
 # ---------------------------------------------------------------- correspondence
 
-def run_corr(runner_args, seed, tier, timeout):
+def build_race_harness():
+    out = os.path.join(BIN, "harness_race")
+    rc, o = run(["go", "build", "-race", "-tags", "verif", "-o", out, "."], cwd=os.path.join(ROOT, "harness"), env=GOENV)
+    return out if rc == 0 else None
+
+
+def run_corr(runner_args, seed, tier, timeout, race=False):
     """harness <args> | avdrv ; returns (pairs, stderr) where pairs = [(inline, outline)]"""
     env = dict(os.environ, VERIF_SEED=str(seed), VERIF_TIER=tier, GOMEMLIMIT="6GiB")
     harness = os.path.join(BIN, "harness")
+    if race:
+        harness = build_race_harness()
+        if harness is None:
+            return None, "the race-detector build of the harness failed"
+        env["GORACE"] = "halt_on_error=1"
     drv = os.path.join(LEAN, ".lake/build/bin/avdrv")
     tmpd = tempfile.mkdtemp(prefix="av.", dir=os.environ.get("TMPDIR", "/var/tmp"))
     try:
@@ -188,6 +199,22 @@ def run_corr(runner_args, seed, tier, timeout):
             p = subprocess.run([harness] + runner_args, stdout=fi, stderr=fe, env=env, timeout=timeout)
         herr = open(errf).read()
         if p.returncode != 0:
+            # the real code took the whole process down (a panic in a goroutine the harness cannot recover, a fatal
+            # runtime error such as a concurrent map write): recover the input it was running
+            crash = None
+            if "go-fed/activity" in herr or "/repo/" in herr:
+                done = [l for l in open(inf).read().split("\n") if l.strip().endswith("}")]
+                try:
+                    with open(outf, "w") as fo, open(os.devnull, "w") as dn:
+                        subprocess.run([harness] + runner_args, stdout=fo, stderr=dn, env=dict(env, VERIF_DRY="1"), timeout=timeout)
+                    dry = open(outf).read().splitlines()
+                    if len(dry) > len(done):
+                        crash = json.loads(dry[len(done)])
+                        crash["obs"] = {"processCrash": herr[-2500:]}
+                except Exception:
+                    crash = None
+            if crash is not None:
+                return ("CRASH", crash), f"harness exited {p.returncode}"
             return None, f"harness exited {p.returncode}: {herr[-3000:]}"
         with open(inf) as fi, open(outf, "w") as fo, open(errf, "w") as fe:
             p = subprocess.run([drv], stdin=fi, stdout=fo, stderr=fe, timeout=timeout)
@@ -306,9 +333,17 @@ def main():
             rargs = list(r["args"])
             if tier == "thorough":
                 rargs += r.get("thorough_args", [])
-            pairs, err = run_corr(rargs, seed, tier, r.get("timeout", 1500))
+            if r.get("tiers") and tier not in r["tiers"]:
+                continue
+            pairs, err = run_corr(rargs, seed, tier, r.get("timeout", 1500), race=r.get("race", False))
             if pairs is None:
                 failed_obl.append({"target": "correspondence:" + rargs[0], "errors": [err]})
+                continue
+            if isinstance(pairs, tuple) and pairs[0] == "CRASH":
+                cin = pairs[1]; cin["runner"] = rargs[0]
+                stats["evaluations"] += 1
+                specfails.append((cin, {"agree": False, "specOk": False,
+                                        "why": "the implementation crashed the whole process on this input: " + cin["obs"]["processCrash"][:600]}))
                 continue
             rs = stats["by_runner"].setdefault(rargs[0], {"cases": 0})
             for li, lo in pairs:
